@@ -3,6 +3,7 @@ package main
 import (
 	"fmt"
 	"go/token"
+	"go/types"
 	"strings"
 
 	"golang.org/x/tools/go/ssa"
@@ -185,6 +186,13 @@ func c19Update(r *Run, fn *ssa.Function) {
 		return
 	}
 	prevRaw := c19Get + "#0"
+	// the equal-size test "the two root hashes are the same bytes", however it is written
+	// (bytes.Equal over the full arrays, or the array comparison == / !=)
+	rootTests := c19RootTests(r, fn)
+	rootsKey, rootsNe := "<equality test of the two SHA256RootHash arrays>", "F"
+	if len(rootTests) == 1 {
+		rootsKey, rootsNe = rootTests[0].Key, rootTests[0].Ne
+	}
 	type shape struct{ data, err string }
 	shapes := func(reach *Reach) []shape {
 		var out []shape
@@ -214,7 +222,7 @@ func c19Update(r *Run, fn *ssa.Function) {
 		{Name: "code", OrdA: "status.Code(" + c19Get + "#1)", OrdB: "5"},
 		{Name: "prev", Pat: "nil?" + c19Prev + "#1"},
 		{Name: "size", OrdA: c19Next + "#0.TreeSize", OrdB: c19Prev + "#0.TreeSize"},
-		{Name: "roots", Pat: "bytes.Equal(*SHA256RootHash[:], *SHA256RootHash[:])"},
+		{Name: "roots", Pat: rootsKey},
 		{Name: "proof", Pat: "nil?proof.VerifyConsistency(*)"},
 		{Name: "store", Pat: "nil?" + c19Set + "(*)"},
 		{Name: "sign", Pat: "nil?" + c19Sign + "(*)#1"},
@@ -235,7 +243,7 @@ func c19Update(r *Run, fn *ssa.Function) {
 			return "stored-unparsable"
 		case v["size"] == "<":
 			return "smaller"
-		case v["size"] == "=" && v["roots"] == "F":
+		case v["size"] == "=" && v["roots"] == rootsNe:
 			return "same-size-other-root"
 		case v["size"] == "=":
 			return "identical"
@@ -308,10 +316,12 @@ func c19Update(r *Run, fn *ssa.Function) {
 			r.ExpectArg(vc, fmt.Sprintf("Update:VerifyConsistency.arg%d", i), i, w)
 		}
 	}
-	if eq := r.OneCall(fn, "Update:roots-compared", "bytes.Equal"); eq != nil {
-		a, b := r.D.D(CallArgs(eq)[0]), r.D.D(CallArgs(eq)[1])
-		n, p := c19Next+"#0.SHA256RootHash[:]", c19Prev+"#0.SHA256RootHash[:]"
-		r.Check("Update:roots-compared.operands", glob(n, a) && glob(p, b) || glob(p, a) && glob(n, b), r.Where(eq), "equal-size test compares "+a+" with "+b)
+	if len(rootTests) != 1 {
+		r.Fail("Update:roots-compared", r.FnPos(fn), fmt.Sprintf("expected exactly one equality test of two root hashes (bytes.Equal over the full arrays or ==) in %s, found %d", FuncName(fn), len(rootTests)))
+	} else {
+		eq := rootTests[0]
+		n, p := c19Next+"#0.SHA256RootHash", c19Prev+"#0.SHA256RootHash"
+		r.Check("Update:roots-compared.operands", glob(n, eq.TX) && glob(p, eq.TY) || glob(p, eq.TX) && glob(n, eq.TY), r.Where(eq.At), "equal-size test compares "+eq.TX+" with "+eq.TY)
 	}
 	var txAlloc *ssa.Alloc
 	if bt := r.OneCall(fn, "Update:BeginTx", "(*sql.DB).BeginTx"); bt != nil {
@@ -420,35 +430,39 @@ func c19Parse(r *Run, fn *ssa.Function) {
 	}
 	r.ExpectArg(id, "parse:logID-decode.input", 1, "p2")
 	idAlloc := baseAlloc(CallArgs(id)[0])
-	var eqID, eqEmpty []string
-	for _, c := range CallsTo(fn, "bytes.Equal") {
-		a, b := AllocBehind(CallArgs(c)[0]), AllocBehind(CallArgs(c)[1])
-		other := b
-		if a != sth {
-			other = a
-			if b != sth {
+	// the two tests on the decoded STH's log ID: against the requested ID and against the
+	// zero ID — as bytes.Equal over the full arrays or as array comparison, either polarity
+	var eqID, eqEmpty []c19ArrEq
+	sthID := r.D.allocName(sth) + ".LogID"
+	for _, t := range c19ArrayEqs(r, fn) {
+		other := t.Y
+		if t.TX != sthID {
+			other = t.X
+			if t.TY != sthID {
 				continue
 			}
 		}
-		key := r.D.D(c.Value())
+		oa, zero := c19ArrSource(other)
 		switch {
-		case CopyOf(other, idAlloc):
-			eqID = append(eqID, key)
-		case other != nil && len(WholeStores(other)) == 0 && len(ElemStores(other)) == 0:
-			eqEmpty = append(eqEmpty, key)
+		case zero:
+			eqEmpty = append(eqEmpty, t)
+		case CopyOf(oa, idAlloc):
+			eqID = append(eqID, t)
+		case oa != nil && len(WholeStores(oa)) == 0 && len(ElemStores(oa)) == 0 && !c19Escapes(oa):
+			eqEmpty = append(eqEmpty, t)
 		}
 	}
 	if !r.Check("parse:logID-tests", len(eqID) == 1 && len(eqEmpty) == 1, r.FnPos(fn), fmt.Sprintf("STH log ID compared with the requested ID (%d) and with the zero ID (%d)", len(eqID), len(eqEmpty))) {
 		return
 	}
 	fill := r.StoresTo(fn, "&("+r.D.allocName(sth)+".LogID)")
-	r.ClassTable(fn, "parse:logID", nil, []RuleAtom{{Name: "empty", Pat: eqEmpty[0]}, {Name: "same", Pat: eqID[0]}},
+	r.ClassTable(fn, "parse:logID", nil, []RuleAtom{{Name: "empty", Pat: eqEmpty[0].Key}, {Name: "same", Pat: eqID[0].Key}},
 		[]string{"absent", "same", "different"},
 		func(v map[string]string) string {
 			switch {
-			case v["empty"] == "T":
+			case v["empty"] == eqEmpty[0].Eq:
 				return "absent"
-			case v["same"] == "T":
+			case v["same"] == eqID[0].Eq:
 				return "same"
 			}
 			return "different"
@@ -500,8 +514,10 @@ func c19Sig(r *Run) {
 				sigs := r.StoresTo(fn, "&("+r.D.allocName(co)+".WitnessSigs)")
 				ok := len(sigs) == 1
 				if ok {
-					el := ElemStores(AllocBehind(sigs[0].Val))
-					ok = len(el) == 1 && len(el[0]) == 1 && glob("tls.CreateSignature(*)#0", r.D.D(el[0][0]))
+					// the slice holds exactly one element, the signature — as a literal, or
+					// appended to an empty slice
+					el, known := sliceElems(sigs[0].Val, 0)
+					ok = known && len(el) == 1 && glob("tls.CreateSignature(*)#0", r.D.D(el[0]))
 				}
 				r.Check("signSTH:cosigned.sig", ok, r.Where(jm), "WitnessSigs = [the signature just created]")
 			}
@@ -705,4 +721,178 @@ func c19EqTests(r *Run, fn *ssa.Function, aGlob, bGlob string) [][2]string {
 		}
 	})
 	return out
+}
+
+// ---- equality of fixed-size byte arrays, whichever way it is written -------------------------
+
+// c19ArrEq is a test "the arrays X and Y hold the same bytes": bytes.Equal(X[:], Y[:]) over
+// the full arrays, or the array comparison X == Y / X != Y.
+type c19ArrEq struct {
+	Key    string    // atom key of the test (as psr.go classifies the condition)
+	Eq, Ne string    // atom values that mean "equal" / "different"
+	X, Y   ssa.Value // the operands (full slices of the arrays, or the array values)
+	TX, TY string    // origin terms of the two arrays (the slice form without its [:])
+	At     ssa.Instruction
+}
+
+// fullArraySlice: v is a[:] for an array a (through its address); returns the term of a.
+func fullArraySlice(r *Run, v ssa.Value) (string, bool) {
+	sl, ok := v.(*ssa.Slice)
+	if !ok || sl.Low != nil || sl.High != nil || sl.Max != nil {
+		return "", false
+	}
+	pt, ok := sl.X.Type().Underlying().(*types.Pointer)
+	if !ok {
+		return "", false
+	}
+	if _, isArr := pt.Elem().Underlying().(*types.Array); !isArr {
+		return "", false
+	}
+	d := r.D.D(v)
+	if !strings.HasSuffix(d, "[:]") {
+		return "", false
+	}
+	return strings.TrimSuffix(d, "[:]"), true
+}
+
+func c19ArrayEqs(r *Run, fn *ssa.Function) []c19ArrEq {
+	var out []c19ArrEq
+	eachInstr(fn, func(in ssa.Instruction) {
+		switch x := in.(type) {
+		case *ssa.Call:
+			if f := x.Call.StaticCallee(); f != nil && FuncName(f) == "bytes.Equal" && len(x.Call.Args) == 2 {
+				ta, okA := fullArraySlice(r, x.Call.Args[0])
+				tb, okB := fullArraySlice(r, x.Call.Args[1])
+				if okA && okB {
+					out = append(out, c19ArrEq{Key: r.D.Classify(x).Key, Eq: "T", Ne: "F", X: x.Call.Args[0], Y: x.Call.Args[1], TX: ta, TY: tb, At: x})
+				}
+			}
+		case *ssa.BinOp:
+			if x.Op != token.EQL && x.Op != token.NEQ {
+				return
+			}
+			if _, isArr := x.X.Type().Underlying().(*types.Array); !isArr {
+				return
+			}
+			t := c19ArrEq{Key: r.D.Classify(x).Key, Eq: "T", Ne: "F", X: x.X, Y: x.Y, TX: r.D.D(x.X), TY: r.D.D(x.Y), At: x}
+			if x.Op == token.NEQ {
+				t.Eq, t.Ne = "F", "T"
+			}
+			out = append(out, t)
+		}
+	})
+	return out
+}
+
+// c19RootTests: the equality tests of fn whose two operands are SHA256RootHash arrays.
+func c19RootTests(r *Run, fn *ssa.Function) []c19ArrEq {
+	var out []c19ArrEq
+	for _, t := range c19ArrayEqs(r, fn) {
+		if strings.HasSuffix(t.TX, ".SHA256RootHash") && strings.HasSuffix(t.TY, ".SHA256RootHash") {
+			out = append(out, t)
+		}
+	}
+	return out
+}
+
+// c19ArrSource: the local allocation an array operand is read (or sliced) from, or "the zero
+// value" when the operand is the zero constant of its type.
+func c19ArrSource(v ssa.Value) (*ssa.Alloc, bool) {
+	if c, ok := v.(*ssa.Const); ok {
+		return nil, c.Value == nil
+	}
+	return AllocBehind(v), false
+}
+
+// c19Escapes: the address of the allocation is handed to a call (which might write through it).
+func c19Escapes(a *ssa.Alloc) bool {
+	if a.Referrers() == nil {
+		return false
+	}
+	for _, ref := range *a.Referrers() {
+		if ci, ok := ref.(ssa.CallInstruction); ok {
+			for _, arg := range ci.Common().Args {
+				if arg == ssa.Value(a) {
+					return true
+				}
+			}
+		}
+	}
+	return false
+}
+
+// sliceElems lists the elements of a slice value whose contents are fixed by construction:
+// a composite literal / array slice with constant bounds, an empty slice (nil, make with
+// length 0, a[:0]), or append(s, t...) of two such slices.  ok=false when the contents are
+// not determined this way.
+func sliceElems(v ssa.Value, depth int) ([]ssa.Value, bool) {
+	if depth > 6 {
+		return nil, false
+	}
+	switch x := v.(type) {
+	case *ssa.Const:
+		return nil, x.Value == nil
+	case *ssa.MakeSlice:
+		return nil, isConstInt(x.Len, 0)
+	case *ssa.Slice:
+		a, ok := x.X.(*ssa.Alloc)
+		if !ok || x.Max != nil {
+			return nil, false
+		}
+		pt, ok := a.Type().Underlying().(*types.Pointer)
+		if !ok {
+			return nil, false
+		}
+		arr, ok := pt.Elem().Underlying().(*types.Array)
+		if !ok {
+			return nil, false
+		}
+		lo, hi := int64(0), arr.Len()
+		if x.Low != nil {
+			c, ok := x.Low.(*ssa.Const)
+			if !ok || c.Value == nil {
+				return nil, false
+			}
+			lo = c.Int64()
+		}
+		if x.High != nil {
+			c, ok := x.High.(*ssa.Const)
+			if !ok || c.Value == nil {
+				return nil, false
+			}
+			hi = c.Int64()
+		}
+		if lo == hi {
+			return nil, true
+		}
+		// every referrer of the array is this kind of slice or a constant-index element store
+		for _, ref := range *a.Referrers() {
+			switch y := ref.(type) {
+			case *ssa.Slice:
+			case *ssa.IndexAddr:
+				if _, isC := y.Index.(*ssa.Const); !isC {
+					return nil, false
+				}
+			case *ssa.DebugRef:
+			default:
+				return nil, false
+			}
+		}
+		el := ElemStores(a)
+		var out []ssa.Value
+		for i := lo; i < hi; i++ {
+			if len(el[i]) != 1 {
+				return nil, false
+			}
+			out = append(out, el[i][0])
+		}
+		return out, true
+	case *ssa.Call:
+		if b, ok := x.Call.Value.(*ssa.Builtin); ok && b.Name() == "append" && len(x.Call.Args) == 2 {
+			base, ok1 := sliceElems(x.Call.Args[0], depth+1)
+			more, ok2 := sliceElems(x.Call.Args[1], depth+1)
+			return append(append([]ssa.Value{}, base...), more...), ok1 && ok2
+		}
+	}
+	return nil, false
 }
